@@ -10,6 +10,78 @@ PY = "/venv/bin/python"
 
 CHECKS = {
     # id: (category, technique, text, note, design_ref, engine)
+    "C01": (
+        "fault_enumeration",
+        'property-based testing over generated workflow programs x crash points (exhaustive single-crash enumeration per program for a sample, random otherwise) x schedules x history paginations, run on the real SDK under a deterministic scheduler against a stateful service model; oracle = user-function entry monitor + step-leaf ground truth',
+        "Every user-function entry is checked against the backend's record of that position (must not be terminal, ReplayChildren bodies excepted) across all invocations of generated executions with injected crashes, paging and pruning; step results are compared with generated ground truth.",
+        'Trusted base: the service model vf/simbackend.py (wire-level; choices listed in DESIGN.md §6), the deterministic scheduler vf/detsched.py (yield points = operations of threading/queue/time primitives and backend calls, optionally source lines of selected SDK files) and the workflow interpreter vf/wfrun.py. Nothing is proved: the property held on every generated case.',
+        "DESIGN.md §2 C01",
+        "E1-E4 workflow",
+    ),
+    "C02": (
+        "fault_enumeration",
+        'metamorphic + per-position stability PBT: the same generated deterministic workflow is executed under two independently generated interruption patterns (crashes, schedules, paging); oracle = type-aware equality of every replayed outcome with its first completion and equality of the two final outcomes',
+        'Replay transparency is checked position by position within an execution and across two executions that differ only in where they were interrupted.',
+        'Trusted base: the service model vf/simbackend.py (wire-level; choices listed in DESIGN.md §6), the deterministic scheduler vf/detsched.py (yield points = operations of threading/queue/time primitives and backend calls, optionally source lines of selected SDK files) and the workflow interpreter vf/wfrun.py. Nothing is proved: the property held on every generated case.',
+        "DESIGN.md §2 C02",
+        "E1-E4 workflow",
+    ),
+    "C03": (
+        "exploration",
+        'schedule/fault search: generated programs x adversarial schedules (walk/PCT, line-level preemption inside state.py/threading.py) x injected API faults x crashes; oracle evaluated at the instant each durable call returns: backend table must already hold the terminal record',
+        'Write-ahead is checked at the exact (virtual) instant an outcome becomes visible to user code, under schedules that preempt the batcher between any two statements of its release protocol and with failing backend calls.',
+        'Trusted base: the service model vf/simbackend.py (wire-level; choices listed in DESIGN.md §6), the deterministic scheduler vf/detsched.py (yield points = operations of threading/queue/time primitives and backend calls, optionally source lines of selected SDK files) and the workflow interpreter vf/wfrun.py. Nothing is proved: the property held on every generated case.',
+        "DESIGN.md §2 C03",
+        "E1-E4 workflow",
+    ),
+    "C04": (
+        "fault_enumeration",
+        "crash-point enumeration: generated programs with at-most-once steps x retry strategies; a crash-free run is followed by one run per entry of an at-most-once function and per backend call of that invocation, then by second crashes inside retry attempts; oracle = entry counter per (position, backend attempt) and 'STARTED at entry'",
+        "Crashes are placed by construction between 'attempt start recorded' and 'attempt outcome recorded', for first and retry attempts.",
+        'Trusted base: the service model vf/simbackend.py (wire-level; choices listed in DESIGN.md §6), the deterministic scheduler vf/detsched.py (yield points = operations of threading/queue/time primitives and backend calls, optionally source lines of selected SDK files) and the workflow interpreter vf/wfrun.py. Nothing is proved: the property held on every generated case.',
+        "DESIGN.md §2 C04",
+        "E1-E4 workflow",
+    ),
+    "C08": (
+        "exploration",
+        "relational PBT: generated program shapes executed under two schedules/interruption patterns; oracle = identity table path<->id from the arrival log (function, injective, schedule-independent) and ParentId = id of the enclosing context's path",
+        'No re-implementation of the hash: identity is judged relationally across invocations and across two executions.',
+        'Trusted base: the service model vf/simbackend.py (wire-level; choices listed in DESIGN.md §6), the deterministic scheduler vf/detsched.py (yield points = operations of threading/queue/time primitives and backend calls, optionally source lines of selected SDK files) and the workflow interpreter vf/wfrun.py. Nothing is proved: the property held on every generated case.',
+        "DESIGN.md §2 C08",
+        "E1-E4 workflow",
+    ),
+    "C11": (
+        "fault_enumeration",
+        'model-based PBT: generated programs x dense crash plans x schedules; oracle = per-operation lifecycle automaton running inside the service model over the concatenated update stream of the whole execution',
+        'Every update the SDK sends in any invocation of a generated execution is run through the lifecycle automaton.',
+        'Trusted base: the service model vf/simbackend.py (wire-level; choices listed in DESIGN.md §6), the deterministic scheduler vf/detsched.py (yield points = operations of threading/queue/time primitives and backend calls, optionally source lines of selected SDK files) and the workflow interpreter vf/wfrun.py. Nothing is proved: the property held on every generated case.',
+        "DESIGN.md §2 C11",
+        "E1-E4 workflow",
+    ),
+    "C12": (
+        "fault_enumeration",
+        'PBT: (a) generated failing-step programs x strategies x crash plans with a recording strategy wrapper; oracle on strategy arguments, RETRY records and entry counts; (b) pure law of create_retry_strategy with the jitter source under generator control (differential against the documented formula)',
+        'Attempt counting is judged against the RETRY records the backend actually accepted; the packaged strategies are compared with the documented formula for thousands of configs.',
+        'Trusted base: the service model vf/simbackend.py (wire-level; choices listed in DESIGN.md §6), the deterministic scheduler vf/detsched.py (yield points = operations of threading/queue/time primitives and backend calls, optionally source lines of selected SDK files) and the workflow interpreter vf/wfrun.py. Nothing is proved: the property held on every generated case.',
+        "DESIGN.md §2 C12",
+        "E1-E4 workflow",
+    ),
+    "C13": (
+        "fault_enumeration",
+        'PBT: generated wait_for_condition programs (state transformers incl. in-place mutation and equal-but-distinct values, decision sequences, serdes) x crash plans between/inside polls; oracle over recorded polls (state threading, attempt numbers, RETRY payload/delay, completion)',
+        'The (state, attempt) log of every poll is compared with what the previous *recorded* poll returned.',
+        'Trusted base: the service model vf/simbackend.py (wire-level; choices listed in DESIGN.md §6), the deterministic scheduler vf/detsched.py (yield points = operations of threading/queue/time primitives and backend calls, optionally source lines of selected SDK files) and the workflow interpreter vf/wfrun.py. Nothing is proved: the property held on every generated case.',
+        "DESIGN.md §2 C13",
+        "E1-E4 workflow",
+    ),
+    "C14": (
+        "exploration",
+        'PBT with a simulated external party: generated callback/wait_for_callback/invoke programs x outcome x delivery instant (in the START response, before the next backend call, between invocations) x crashes; oracle = delivered outcome vs what the party sent, id stability, single START with payload/target/tenant',
+        'All terminal and non-terminal statuses and delivery orders are generated; errors must be deferred to result().',
+        'Trusted base: the service model vf/simbackend.py (wire-level; choices listed in DESIGN.md §6), the deterministic scheduler vf/detsched.py (yield points = operations of threading/queue/time primitives and backend calls, optionally source lines of selected SDK files) and the workflow interpreter vf/wfrun.py. Nothing is proved: the property held on every generated case.',
+        "DESIGN.md §2 C14",
+        "E1-E4 workflow",
+    ),
     "C05": (
         "exploration",
         "schedule + input + configuration search: Hypothesis-generated producer scripts, batcher configurations and schedules (walk/PCT/seq, line-level yield points in state.py; all schedules with <=2 preemptions for listed small configurations) run the real ExecutionState and batcher thread under the deterministic scheduler against a recording client; stream-monitor oracle on call intervals",
@@ -82,6 +154,7 @@ def main() -> int:
         },
         "engines": [
             {"name": "E1 detsched", "path": "vf/detsched.py", "serves_properties": ["C05", "C19"], "kind_free_text": "deterministic cooperative scheduler over real threads, virtual clock, shims of threading/queue/time/concurrent.futures, DFS / bounded / walk / PCT choosers"},
+            {"name": "E1-E4 workflow", "path": "vf/wfrun.py", "serves_properties": ["C01", "C02", "C03", "C04", "C06", "C07", "C08", "C09", "C10", "C11", "C12", "C13", "C14", "C16", "C17", "C18"], "kind_free_text": "workflow DSL generator (vf/wfgen.py) + interpreter/driver (vf/wfrun.py) on the real SDK handler under detsched, stateful wire-level service model (vf/simbackend.py), history monitors (vf/monitors.py)"},
             {"name": "E5 pure", "path": "vf/props", "serves_properties": ["C15", "C20"], "kind_free_text": "Hypothesis properties over pure data, atheris stage in thorough"},
         ],
         "checks": checks,
